@@ -44,6 +44,7 @@ deep = copy_file('links/deep/d.txt', gen, mode='symlink')
 stamp = build_step('now.txt', cmd=['touch', 'now.txt'], always_outdated=True)
 pair = build_step(['p1.txt', 'p2.txt'], cmd=['touch', 'p1.txt', 'p2.txt'], always_outdated=True)
 table = build_step('table.txt', cmds=[['cp', source_file('table.in'), 'table.txt'], ['touch', 'table.txt']])
+report = build_step('report.txt', cmd=['sh', tool, '--from=' + gen, build_step.output])
 vers = shared_library('vers', files=['s2.c'], version='1.2.3', soversion='1')
 test(t)
 """
@@ -59,6 +60,7 @@ GRAPH_C = {
     'table.txt': {'{src}/table.in'},    # a file named in the first of two command lines
     'all': {'prog', 'libfoo.a', 'libvers.so'},   # programs and libraries (by their public name) that are not test-only
     'tests': {'t'},
+    'report.txt': {'tool.sh', 'gen.txt'},   # a file named inside a command word (`'--from=' + file`); checked last (known finding)
 }
 # an implicitly created precompiled header with explicitly passed (source and generated) headers; a program that needs
 # a runner (java) handed to test(); install() decides the default set
@@ -349,15 +351,6 @@ class CrossBackend(Bounded):
             if m_goals != set(n_special):
                 return self.fail(case, raw, 'same_goals', only_make=sorted(m_goals - set(n_special)),
                                  only_ninja=sorted(set(n_special) - m_goals))
-            # ---- the graph the script describes (projects that come with one) -------------------------------------
-            graph = PROJECTS[raw['project']][1]
-            if graph:
-                for tgt, deps in graph.items():
-                    want = sorted(norm_path(d.format(src=src)) for d in deps)
-                    for be, edges in (('make', m_edges), ('ninja', n_edges)):
-                        if tgt not in edges or sorted(set(edges[tgt])) != want:
-                            return self.fail(case, raw, 'dependencies_are_the_ones_the_script_describes', backend=be,
-                                             file=tgt, written=edges.get(tgt), described=want)
             # ---- compile_commands.json of each backend against that backend's compile steps ------------------
             for b, cmds in ((bm, set(m_cmds)), (bn, n_set)):
                 db = json.load(open(b + '/compile_commands.json'))
@@ -374,6 +367,15 @@ class CrossBackend(Bounded):
                 if not compiles <= have:
                     return self.fail(case, raw, 'every_compile_step_in_compdb', backend=os.path.basename(b),
                                      missing=[' '.join(k) for k in sorted(compiles - have)][:4])
+            # ---- the graph the script describes (projects that come with one) -------------------------------------
+            graph = PROJECTS[raw['project']][1]
+            if graph and getattr(self, 'active_property', None) in (None, 'C03'):      # (the described graph is C03's clause)
+                for tgt, deps in graph.items():
+                    want = sorted(norm_path(d.format(src=src)) for d in deps)
+                    for be, edges in (('make', m_edges), ('ninja', n_edges)):
+                        if tgt not in edges or sorted(set(edges[tgt])) != want:
+                            return self.fail(case, raw, 'dependencies_are_the_ones_the_script_describes', backend=be,
+                                             file=tgt, written=edges.get(tgt), described=want)
             return True
         finally:
             shutil.rmtree(top, ignore_errors=True)
